@@ -65,7 +65,9 @@ def c16(ctx):
     sub_obs = []    # (tuple tree, encoded real get_sub_terms, text)
     n_eval = 0
     nontrivial = 0
-    coefs = [None, F(1), F(2), F(4), F(12), F(-1), F(-3), F(1, 2), F(5, 2), F(-7, 4), F(0), F(100)]
+    coefs = [None, F(1), F(2), F(4), F(12), F(-1), F(-3), F(1, 2), F(5, 2), F(-7, 4), F(0), F(100),
+             # integers written in full are extracted exactly, whatever their size (no double in between)
+             F(2**53 + 1), F(10**17 + 3), F(-(10**20) - 7), F(12345678901234567890123)]
     exps = [None, F(2), F(3), F(1), F(0), F(-1), F(-2), F(1, 2), F(5, 2), F(10)]
     # (c) extraction from parsed text
     for c in coefs:
@@ -238,6 +240,27 @@ def c16(ctx):
                 bad.append({"clause": "terms_are_like symmetric", "text": a_txt + " + " + b_txt, "ab": str(r1), "ba": str(r2)})
             if a_txt == b_txt and r1 != ("ok", True):
                 bad.append({"clause": "terms_are_like reflexive", "text": a_txt, "got": str(r1)})
+            # the same question asked with already-extracted term objects (the signature accepts them), the
+            # objects being REUSED for both directions and asked twice: same answers, arguments left as they were
+            try:
+                ta, tb = UT.get_term(ts[0]), UT.get_term(ts[1])
+            except Exception:  # noqa
+                ta = tb = False
+            if ta is not False and tb is not False:
+                def _snap(t_):
+                    # plain data by value, node references by identity
+                    d_ = getattr(t_, "__dict__", {})
+                    return {k_: (list(v_) if isinstance(v_, list) and all(isinstance(i_, (int, float, str)) for i_ in v_)
+                                 else [id(i_) for i_ in v_] if isinstance(v_, list) else
+                                 v_ if isinstance(v_, (int, float, str, type(None))) else id(v_)) for k_, v_ in d_.items()}
+                snap = (_snap(ta), _snap(tb))
+                o1, o2, o3 = call(UT.terms_are_like, ta, tb), call(UT.terms_are_like, tb, ta), call(UT.terms_are_like, ta, tb)
+                if not (o1 == o2 == o3 == r1):
+                    bad.append({"clause": "terms_are_like symmetric", "text": a_txt + " + " + b_txt,
+                                "with_extracted_terms": [str(o1), str(o2), str(o3)], "with_nodes": str(r1)})
+                if snap != (_snap(ta), _snap(tb)):
+                    bad.append({"clause": "terms_are_like symmetric", "text": a_txt + " + " + b_txt,
+                                "problem": "terms_are_like modified the term object passed to it"})
     # dedupe by (clause, function, exception) to keep reports small but complete in kinds
     seen, uniq = set(), []
     for b in bad:
